@@ -447,6 +447,12 @@ def iter_of_value(it, v):
             if so.ordered:
                 return IterList(it, so.keys_list(v))
             return IterSet(it, lambda x: z3.Select(v.terms[0], x), so.key, lambda x: x)
+    if isinstance(v, tuple) and v[0] == "genexp":
+        # for x in (f(y) for y in ys): the mapped list (f pure)
+        g = v[1]
+        n2 = ast.ListComp(elt=g.elt, generators=g.generators)
+        ast.copy_location(n2, g)
+        return IterList(it, comprehension(it, n2, "list"))
     if isinstance(v, tuple):
         if v[0] in ("keys", "values", "items"):
             d = v[1]
@@ -694,7 +700,9 @@ def call_special(it, n):
             body = it.eval_pure_body(fs, env, unfolding=True)
         finally:
             it.unfolding = saved
-        return mk_bool(fs.ret.eq(app, it.coerce(body, fs.ret)))
+        b2 = it.coerce(body, fs.ret)
+        # a definition: leaf-wise identity (for list results: the whole array, not only the first len elements)
+        return mk_bool(z3.And(*[x == y for x, y in zip(app.terms, b2.terms)]))
     if name == "result_of":
         # result_of("Callee", k): the value returned by the k-th call (in path order) of that contract in this function
         key = (ast.literal_eval(n.args[0]), ast.literal_eval(n.args[1]))
@@ -754,6 +762,8 @@ def any_all(it, g, universal):
     gen = g.generators[0]
     src = it.ev(gen.iter)
     saved = it.spec
+    saved_pre = it.spec_pre
+    it.spec_pre = [] if not saved else saved_pre
     it.spec = True  # the body of any()/all() is required to be pure
     try:
         if isinstance(src, V) and isinstance(src.sort, S.TSet):
@@ -783,6 +793,12 @@ def any_all(it, g, universal):
         guard = z3.And(guard, *conds)
     finally:
         it.spec = saved
+        pres, it.spec_pre = it.spec_pre, saved_pre
+    if not saved and pres:
+        # callee preconditions inside the generator body must hold for every element visited
+        it.callsite_counter["purepre"] = it.callsite_counter.get("purepre", 0) + 1
+        it.oblige(f"pre@pure-calls#{it.callsite_counter['purepre']}", z3.ForAll(bv, z3.Implies(guard, z3.And(*pres))),
+                  {"clause": "preconditions of the calls inside any()/all() hold for every element"})
     if universal:
         return mk_bool(z3.ForAll(bv, z3.Implies(guard, body)))
     return mk_bool(z3.Exists(bv, z3.And(guard, body)))
